@@ -21,7 +21,13 @@ for mid, prop, patch in items:
     if subprocess.run(["git", "-C", R, "apply", patch]).returncode != 0:
         res[mid] = {"property": prop, "status": "patch does not apply"}; print(mid, "PATCH DOES NOT APPLY"); continue
     env = dict(os.environ, VERIF_BUDGET_S=budget)
-    miri_only = "f8-revert" in mid
+    if "f9-revert" in mid:
+        # caught only by the thorough tier's interpreted whole-scheduler blocks (about once in 40 blocks)
+        res[mid] = {"property": prop, "status": "thorough-tier Miri lane only; not re-run here"}
+        subprocess.run(["git", "-C", R, "checkout", "--", "."])
+        print(f"{mid:52s} {prop} (thorough-tier Miri lane only, skipped)", flush=True)
+        continue
+    miri_only = "f8-revert" in mid or "key-tx-cursor-read-before-lock" in mid
     env["VERIF_MIRI"] = "1" if miri_only else os.environ.get("VERIF_MIRI", "0")
     t0 = time.time()
     r = subprocess.run(["./check", prop, "quick"], cwd=V, capture_output=True, text=True, env=env)
